@@ -4,6 +4,7 @@ import (
 	"context"
 	"encoding/binary"
 	"encoding/json"
+	"errors"
 	"fmt"
 	"sort"
 	"strings"
@@ -65,6 +66,11 @@ type c23Op struct {
 	Items []int  `json:"i,omitempty"`
 	N     int    `json:"n,omitempty"`
 	Mask  uint32 `json:"m,omitempty"`
+	// gated stage only: the call is started Early ops before its position (parked
+	// at its span start); a FinishStreaming call is additionally let run up to
+	// SetAttributes (its last gate before the lock) EarlyAttr ops before its position
+	Early     int `json:"e,omitempty"`
+	EarlyAttr int `json:"ea,omitempty"`
 }
 
 type c23Case struct {
@@ -272,10 +278,25 @@ type c23Flags struct {
 	pendingRestoreStream    bool
 }
 
-func c23Run(c c23Case, st *vstat.Stats) error {
+func c23Run(c c23Case, st *vstat.Stats) error { return c23RunMode(c, st, false) }
+
+// c23RunMode interprets the op list. gated=false: every call is made inline.
+// gated=true (TestC23Gated): every mutating call runs on its own goroutine and
+// is parked by the tracer test double at its span start (and FinishStreaming
+// again at SetAttributes); the op list order is the order in which the calls
+// are let through to the mempool lock, op.Early / op.EarlyAttr say how many
+// ops before its own position a call is started / let run up to its last gate
+// before the lock. Exactly one goroutine runs at a time, so the execution is
+// deterministic and its linearisation is the op list order: the same model
+// and the same per-op comparisons apply.
+func c23RunMode(c c23Case, st *vstat.Stats, gated bool) error {
 	ctx := context.Background()
 	univ := c23Universe(c.Items)
-	mp := mempool.New[*mpItem](trace.Noop, c.MaxSize, c.MaxSponsor)
+	var tracer trace.Tracer = trace.Noop
+	if gated {
+		tracer = c23GateTracer{}
+	}
+	mp := mempool.New[*mpItem](tracer, c.MaxSize, c.MaxSponsor)
 	m := newMpModel(c)
 	var fl c23Flags
 	var trace_ []string
@@ -351,8 +372,162 @@ func c23Run(c c23Case, st *vstat.Stats) error {
 		return nil
 	}
 
+	// ---- call plumbing
+	pend := make([]*c23Pending, len(c.Ops))
+	abort := make(chan struct{})
+	defer close(abort) // lets every parked goroutine run off on any exit path
+	restorableNow := func(op c23Op) []int {
+		var restorable []int
+		if len(m.handed) > 0 {
+			seen := map[int]bool{}
+			for _, k := range op.Items {
+				i := m.handed[((k%len(m.handed))+len(m.handed))%len(m.handed)]
+				if !seen[i] {
+					seen[i] = true
+					restorable = append(restorable, i)
+				}
+			}
+		}
+		return restorable
+	}
+	// launch evaluates the arguments of op oi NOW and (gated) starts the call,
+	// which parks at its span start
+	launch := func(oi int) (*c23Pending, error) {
+		op := c.Ops[oi]
+		p := &c23Pending{}
+		switch op.Kind {
+		case "add":
+			its := pick(norm(op.Items))
+			p.f = func(ctx context.Context) { mp.Add(ctx, its) }
+		case "remove":
+			its := pick(norm(op.Items))
+			p.f = func(ctx context.Context) { mp.Remove(ctx, its) }
+		case "expire":
+			p.f = func(ctx context.Context) { p.items = mp.SetMinTimestamp(ctx, int64(op.N)) }
+		case "pop":
+			p.f = func(ctx context.Context) { p.item, p.ok = mp.PopNext(ctx) }
+		case "top":
+			p.f = func(ctx context.Context) {
+				// topFn is set when the call is let through (it works on the model)
+				p.err = mp.Top(ctx, time.Hour, func(c context.Context, it *mpItem) (bool, bool, error) {
+					if p.topFn == nil { // the case was abandoned (abort): run off harmlessly
+						return false, false, nil
+					}
+					return p.topFn(c, it)
+				})
+			}
+		case "prepare":
+			p.f = func(ctx context.Context) { mp.PrepareStream(ctx, op.N) }
+		case "stream":
+			p.f = func(ctx context.Context) { p.items = mp.Stream(ctx, op.N) }
+		case "finish":
+			p.restorable = restorableNow(op)
+			its := pick(p.restorable)
+			p.f = func(ctx context.Context) { mp.FinishStreaming(ctx, its) }
+		default:
+			return nil, fmt.Errorf("op %d %s cannot be launched", oi, op.Kind)
+		}
+		pend[oi] = p
+		if gated {
+			p.gate = newC23Gate(abort)
+			gctx := context.WithValue(ctx, c23GateKey{}, p.gate)
+			go func() {
+				defer close(p.gate.done)
+				p.f(gctx)
+			}()
+			if _, err := p.gate.waitParked(); err != nil {
+				return nil, err
+			}
+		}
+		return p, nil
+	}
+	// do lets the call of op oi (launched earlier or now) run to completion
+	do := func(oi int) (*c23Pending, error) {
+		p := pend[oi]
+		if p == nil {
+			var err error
+			if p, err = launch(oi); err != nil {
+				return nil, err
+			}
+		}
+		if !gated {
+			p.f(ctx)
+			return p, nil
+		}
+		for {
+			finished, err := p.gate.step()
+			if err != nil {
+				return nil, err
+			}
+			if finished {
+				return p, nil
+			}
+		}
+	}
+	// structural pre-pass (gated): which ops will be applicable, and where the
+	// stream of a prepare/stream/finish op started
+	applicable := make([]bool, len(c.Ops))
+	streamStart := make([]int, len(c.Ops))
+	{
+		streaming, prefetch, startedAt := false, false, -1
+		for i, op := range c.Ops {
+			streamStart[i] = startedAt
+			switch op.Kind {
+			case "start":
+				applicable[i] = !streaming
+				if !streaming {
+					streaming, startedAt = true, i
+				}
+			case "prepare":
+				applicable[i] = streaming && !prefetch
+				if applicable[i] {
+					prefetch = true
+				}
+			case "stream":
+				applicable[i] = streaming
+				prefetch = false
+			case "finish":
+				applicable[i] = streaming
+				streaming, prefetch = false, false
+			default:
+				applicable[i] = true
+			}
+		}
+	}
+	earlyLaunched, earlyAttr, finishAheadOfPrepare := 0, 0, false
+
 	for oi, op := range c.Ops {
 		name := fmt.Sprintf("op %d %s", oi, op.Kind)
+		if gated {
+			// start the calls that are due ahead of their position, then let the due
+			// FinishStreaming calls run up to their last gate before the lock
+			for j := oi + 1; j < len(c.Ops) && j <= oi+c23MaxEarly; j++ {
+				oj := c.Ops[j]
+				if !applicable[j] || oj.Kind == "start" || oj.Kind == "peek" {
+					continue
+				}
+				inStreamOp := oj.Kind == "prepare" || oj.Kind == "stream" || oj.Kind == "finish"
+				if inStreamOp && streamStart[j] >= oi {
+					continue // never before the StartStreaming of its own stream has returned
+				}
+				if pend[j] == nil && j-oj.Early <= oi {
+					if _, err := launch(j); err != nil {
+						return c23GateErr(name, err)
+					}
+					earlyLaunched++
+				}
+				if p := pend[j]; p != nil && oj.Kind == "finish" && !p.atAttr && oj.EarlyAttr > 0 && j-oj.EarlyAttr <= oi {
+					if _, err := p.gate.step(); err != nil {
+						return c23GateErr(name, err)
+					}
+					p.atAttr = true
+					earlyAttr++
+				}
+			}
+		}
+		if pend[oi] != nil && !applicable[oi] {
+			return fmt.Errorf("harness error: %s was launched but is not applicable", name)
+		}
 		switch op.Kind {
 		case "add":
 			idxs := norm(op.Items)
@@ -370,13 +545,17 @@ func c23Run(c c23Case, st *vstat.Stats) error {
 					fl.addDuringStream = true
 				}
 			}
-			mp.Add(ctx, pick(idxs))
+			if _, err := do(oi); err != nil {
+				return c23GateErr(name, err)
+			}
 		case "remove":
 			idxs := norm(op.Items)
 			for _, i := range idxs {
 				m.drop(i)
 			}
-			mp.Remove(ctx, pick(idxs))
+			if _, err := do(oi); err != nil {
+				return c23GateErr(name, err)
+			}
 		case "expire":
 			t := int64(op.N)
 			var want []int
@@ -386,7 +565,11 @@ func c23Run(c c23Case, st *vstat.Stats) error {
 				}
 			}
 			sort.Ints(want)
-			gotItems := mp.SetMinTimestamp(ctx, t)
+			p, err := do(oi)
+			if err != nil {
+				return c23GateErr(name, err)
+			}
+			gotItems := p.items
 			got := make([]int, 0, len(gotItems))
 			for _, it := range gotItems {
 				got = append(got, it.idx)
@@ -404,7 +587,11 @@ func c23Run(c c23Case, st *vstat.Stats) error {
 		case "peek":
 			// observe() below checks PeekNext
 		case "pop":
-			it, ok := mp.PopNext(ctx)
+			p, err := do(oi)
+			if err != nil {
+				return c23GateErr(name, err)
+			}
+			it, ok := p.item, p.ok
 			if ok != (m.length() > 0) {
 				return fmt.Errorf("%s: PopNext ok=%v with %d items in the model", name, ok, m.length())
 			}
@@ -420,7 +607,12 @@ func c23Run(c c23Case, st *vstat.Stats) error {
 			}
 			var visited, restore []int
 			var ferr error
-			err := mp.Top(ctx, time.Hour, func(_ context.Context, it *mpItem) (bool, bool, error) {
+			if pend[oi] == nil {
+				if _, err := launch(oi); err != nil {
+					return c23GateErr(name, err)
+				}
+			}
+			pend[oi].topFn = func(_ context.Context, it *mpItem) (bool, bool, error) {
 				k := len(visited)
 				visited = append(visited, it.idx)
 				if e := m.pop(it.idx); e != nil && ferr == nil {
@@ -431,9 +623,13 @@ func c23Run(c c23Case, st *vstat.Stats) error {
 					restore = append(restore, it.idx)
 				}
 				return len(visited) < stopAfter, r, nil
-			})
+			}
+			p, err := do(oi)
 			if err != nil {
-				return fmt.Errorf("%s: Top returned %v", name, err)
+				return c23GateErr(name, err)
+			}
+			if p.err != nil {
+				return fmt.Errorf("%s: Top returned %v", name, p.err)
 			}
 			if ferr != nil {
 				return fmt.Errorf("%s: %w", name, ferr)
@@ -469,7 +665,16 @@ func c23Run(c c23Case, st *vstat.Stats) error {
 			for i := range m.in {
 				before[i] = true
 			}
-			mp.PrepareStream(ctx, op.N)
+			if gated {
+				for j := oi + 1; j < len(c.Ops); j++ {
+					if pend[j] != nil && pend[j].atAttr {
+						finishAheadOfPrepare = true
+					}
+				}
+			}
+			if _, err := do(oi); err != nil {
+				return c23GateErr(name, err)
+			}
 			// what was taken is visible only through Has; its order is checked when
 			// Stream returns it
 			var taken []int
@@ -523,7 +728,11 @@ func c23Run(c c23Case, st *vstat.Stats) error {
 				st.Skip("stream-outside-stream")
 				continue
 			}
-			got := mp.Stream(ctx, op.N)
+			sp, err := do(oi)
+			if err != nil {
+				return c23GateErr(name, err)
+			}
+			got := sp.items
 			if m.hasPrefetch {
 				// the prefetched batch is returned whatever the count
 				gotIdx := make([]int, 0, len(got))
@@ -561,20 +770,17 @@ func c23Run(c c23Case, st *vstat.Stats) error {
 				st.Skip("finish-outside-stream")
 				continue
 			}
-			var restorable []int
-			if len(m.handed) > 0 {
-				seen := map[int]bool{}
-				for _, k := range op.Items {
-					i := m.handed[((k%len(m.handed))+len(m.handed))%len(m.handed)]
-					if !seen[i] {
-						seen[i] = true
-						restorable = append(restorable, i)
-					}
+			if pend[oi] == nil {
+				if _, err := launch(oi); err != nil {
+					return c23GateErr(name, err)
 				}
 			}
+			restorable := pend[oi].restorable // fixed when the call was made
 			cands := append(append([]int{}, restorable...), m.prefetched...)
 			restBefore := m.length()
-			mp.FinishStreaming(ctx, pick(restorable))
+			if _, err := do(oi); err != nil {
+				return c23GateErr(name, err)
+			}
 			m.streaming = false
 			m.streamed = nil
 			m.handed = nil
@@ -637,6 +843,9 @@ func c23Run(c c23Case, st *vstat.Stats) error {
 	}
 
 	nt := fl.finishRestoreThenStream || fl.addStreamedID
+	if gated {
+		nt = finishAheadOfPrepare
+	}
 	labels := []string{}
 	add := func(b bool, l string) {
 		if b {
@@ -656,11 +865,15 @@ func c23Run(c c23Case, st *vstat.Stats) error {
 	add(fl.addDuringStream, "add-during-stream")
 	add(c.MaxSize == 1, "limit-1")
 	add(c.MaxSponsor == c.MaxSize, "sponsor-limit-eq-total")
-	add(nt, "nontrivial")
+	add(nt && !gated, "nontrivial")
+	add(gated, "gated")
+	add(earlyLaunched > 0, "gated-call-started-early")
+	add(earlyAttr > 0, "gated-finish-entered-early")
+	add(finishAheadOfPrepare, "gated-prepare-completes-inside-finish")
 	canon, _ := json.Marshal(c)
 	st.Case(nt, string(canon), labels...)
 	st.Sample(nt, map[string]any{"max": c.MaxSize, "max_sponsor": c.MaxSponsor, "items": len(c.Items),
-		"ops": strings.Join(trace_, " "), "executed": executed})
+		"ops": strings.Join(trace_, " "), "executed": executed, "gated": gated})
 	return nil
 }
 
@@ -763,6 +976,17 @@ func TestC23Replay(t *testing.T) {
 			_, err := c23ConcRun(cc, vstat.New(nil, "C23", ""))
 			return err
 		}
-		return c23Run(c, vstat.New(nil, "C23", ""))
+		gated := false
+		for _, op := range c.Ops {
+			if op.Early > 0 {
+				gated = true
+			}
+		}
+		err := c23RunMode(c, vstat.New(nil, "C23", ""), gated)
+		if errors.Is(err, errC23GateTimeout) {
+			fmt.Println("INCONCLUSIVE: a gated call neither parked nor returned in time (not a verdict)")
+			return nil
+		}
+		return err
 	})
 }
